@@ -81,3 +81,75 @@ Print Assumptions claims_tile.
 Theorem grant_is_run : forall p s tid slow, exists sched, grant p s tid slow = run p s sched.
 Proof. exact grant_is_run_proof. Qed.
 Print Assumptions grant_is_run.
+
+(* ------------------------------------------------------------------ *)
+(** third clause: "the loop call returns only after every invocation has returned" (Loops/Completion.v) *)
+From QV Require Import Loops.Completion Loops.ProofsCompletion Loops.ProofsCompletionQ.
+
+(** any task system whose return locations are pairwise distinct and all waited on (or that counts one signal per
+    task), every schedule: when the caller's wait has completed, every task has delivered its signal and its user
+    function was executed, exactly once *)
+Theorem loop_returns_after_all : forall y, wf y -> forall sched,
+  let s := crun y cinit sched in
+  c_pc s = CReturned ->
+  (forall d, In d (y_tasks y) -> c_stat s (d_id d) = Finished /\ In (d_id d) (c_ran s)) /\ NoDup (c_ran s).
+Proof. exact returns_after_all_generic. Qed.
+Print Assumptions loop_returns_after_all.
+
+(** qt_loop_balance{,_simple,_sv,_dc,_aligned,_sinc}: every sync type, range, worker count and schedule of caller and
+    wrapper steps: once the call has returned every wrapper has run its function and signalled, and each index of
+    [start,stop) belongs to the range of exactly one completed invocation *)
+Theorem loop_returns_after_all_balance : forall st start stop nw, start < stop -> 1 <= nw < 65536 ->
+  forall sched,
+  let y := balance_sys st start stop nw in
+  let s := crun y cinit sched in
+  c_pc s = CReturned ->
+  (forall d, In d (y_tasks y) -> c_stat s (d_id d) = Finished /\ In (d_id d) (c_ran s)) /\
+  NoDup (c_ran s) /\
+  forall x, cover_count x (map d_range (filter (fun d => is_fin (c_stat s (d_id d))) (y_tasks y))) =
+            if (start <=? x) && (x <? stop) then 1%nat else 0%nat.
+Proof. exact loop_returns_after_all_balance_proof. Qed.
+Print Assumptions loop_returns_after_all_balance.
+
+(** qt_loop_spawner (the user function of the balance wrappers of the qt_loop flavours): returns only after the task of every index
+    of its range has run and signalled; one completed single-index invocation per index *)
+Theorem loop_returns_after_all_spawner : forall st lo hi, lo <= hi ->
+  forall sched,
+  let y := spawner_sys st lo hi in
+  let s := crun y cinit sched in
+  c_pc s = CReturned ->
+  (forall d, In d (y_tasks y) -> c_stat s (d_id d) = Finished /\ In (d_id d) (c_ran s)) /\
+  NoDup (c_ran s) /\
+  forall x, cover_count x (map d_range (filter (fun d => is_fin (c_stat s (d_id d))) (y_tasks y))) =
+            if (lo <=? x) && (x <? hi) then 1%nat else 0%nat.
+Proof. exact loop_returns_after_all_spawner_proof. Qed.
+Print Assumptions loop_returns_after_all_spawner.
+
+(** qt_loop_queue_run, all four cursor types, every schedule of caller / worker steps (a worker step is one shared
+    access of get_iterations, the func call for its pending claim, or its donecount increment): once the call has
+    returned all workers were told "no more", no claimed range is waiting for its func call, and the executed calls are
+    non-empty ranges covering each index of [start,stop) exactly once *)
+Theorem loop_returns_after_all_queue : forall (p : params) (start : Z) (sheps : list Z) (lb0 : Z),
+  1 <= p_sheps p -> 1 <= p_chunk p -> (p_fl p = TIMED -> 1 <= p_step p) -> start <= p_stop p ->
+  (p_nw p = 1 -> (length sheps <= 1)%nat) -> sheps <> [] ->
+  forall sched,
+  let q := qrun p (qinit p start sheps lb0) sched in
+  q_ret q = true ->
+  all_done (q_s q) = true /\ pendl (q_pend q) = [] /\
+  Forall (fun r => fst r < snd r) (map snd (q_exec q)) /\
+  forall x, cover_count x (map snd (q_exec q)) = if (start <=? x) && (x <? p_stop p) then 1%nat else 0%nat.
+Proof. exact queue_returns_after_all. Qed.
+Print Assumptions loop_returns_after_all_queue.
+
+(** regression variants with the slot rules before the two "fix:" commits in /repo: the wait never completes *)
+(* 3745911: ALIGNED fell through to DONECOUNT; children returned into (&sync.dc)+id *)
+Theorem aligned_slots_refuted : forall start stop nw, start + 2 <= stop -> 2 <= nw < 65536 ->
+  forall sched, c_pc (crun (balance_sys_old_aligned start stop nw) cinit sched) <> CReturned.
+Proof. exact aligned_slots_refuted_proof. Qed.
+Print Assumptions aligned_slots_refuted.
+
+(* 1c7a534: qt_loop_spawner gave every spawn return slot 0 *)
+Theorem spawner_slots_refuted : forall st lo hi, st = ALIGNED \/ st = SYNCVAR_T -> lo + 2 <= hi ->
+  forall sched, c_pc (crun (spawner_sys_old st lo hi) cinit sched) <> CReturned.
+Proof. exact spawner_slots_refuted_proof. Qed.
+Print Assumptions spawner_slots_refuted.
